@@ -24,7 +24,7 @@ LEVEL = "exploration"
 RULE = (
     "Style (27) x EOL {LF, CRLF, CR} x BOM x first-line declaration (shebang / <?xml / <?php / cabal-version / % !TEX where the style documents one) x "
     "0..6 pre-lines and 0..8 post-lines from {code, indented code, blank runs, comment lines in the file's own and in foreign styles, form-feed and "
-    "U+2028 lines, trailing-blank lines} x existing header {absent, single-line block, multi-line block, block whose closing delimiter is followed by code on the same line} at top or in the middle x final newline or "
+    "U+2028 lines, trailing-blank lines, lines holding a stray carriage return (LF / CRLF files, clearly in the minority)} x existing header {absent, single-line block, multi-line block, block whose closing delimiter is followed by code on the same line} at top or in the middle x final newline or "
     "not x replace / --no-replace.  Every outside line carries a unique token.  Oracle: outside lines are found byte-for-byte and in order around one "
     "inserted block; only blank lines / trailing blanks adjacent to the block may differ; BOM first, declaration first line, all EOLs as in the input, "
     "final newline kept.  Non-trivial = >= 2 outside lines and (existing header or declaration or BOM or non-LF EOL); distinct by file content + options."
@@ -65,7 +65,7 @@ def lines(draw, style, n, start_k):
     out = []
     k = start_k
     for _ in range(n):
-        kind = draw(st.sampled_from(["code", "code", "indent", "blank", "blank2", "own", "foreign", "ff", "u2028", "trail", "tab"]))
+        kind = draw(st.sampled_from(["code", "code", "indent", "blank", "blank2", "own", "foreign", "ff", "u2028", "trail", "tab", "stray-cr"]))
         k += 1
         if kind == "code":
             out.append(f"int x{k} = {k}; /* ~{k}~ */" if style not in ("c", "cpp") else f"int x{k} = {k}; ~{k}~")
@@ -83,6 +83,9 @@ def lines(draw, style, n, start_k):
             out.append(f"int y{k};\x0c ~{k}~")
         elif kind == "u2028":
             out.append(f"let s{k} = ' '; ~{k}~")
+        elif kind == "stray-cr":
+            # one carriage return inside a line (a progress-bar string, say); harmless unless the file's own line ending is CR
+            out.append(f"print('working\rdone') ~{k}~")
         elif kind == "trail":
             out.append(f"int z{k}; ~{k}~   ")
         else:
@@ -150,6 +153,11 @@ def build(c):
         post.insert(0, "")
     if not hl and not c["no_replace"]:
         pass
+    # a stray carriage return is only a *stray* one where it is clearly in the minority and is not the file's own line ending
+    strays = sum(1 for ln in pre + post if "\r" in ln)
+    if c["eol"] == "\r" or strays * 3 > len(pre) + len(post) + len(hl):
+        pre = [ln.replace("\r", "R") for ln in pre]
+        post = [ln.replace("\r", "R") for ln in post]
     outside_pre = ([c["decl"]] if c["decl"] else []) + pre
     all_lines = outside_pre + hl + post
     if not all_lines:
@@ -221,12 +229,14 @@ def check(ctx, c):
         # ---- EOL convention
         if eol not in text:
             eol = "\n"  # a file without any line break has no convention to keep; the tool uses the platform's
-        if eol == "\n" and "\r" in out_body:
-            ctx.fail(case_d, "LF file now contains CR")
+        in_body = text[1:] if c["bom"] else text
+        if eol == "\n" and out_body.count("\r") != in_body.count("\r"):
+            ctx.fail(case_d, f"LF file: {in_body.count(chr(13))} carriage returns before, {out_body.count(chr(13))} after: {out_body[:200]!r}")
         if eol == "\r" and "\n" in out_body:
             ctx.fail(case_d, "CR file now contains LF")
-        if eol == "\r\n" and (out_body.replace("\r\n", "").count("\n") or out_body.replace("\r\n", "").count("\r")):
-            ctx.fail(case_d, f"CRLF file now contains a lone CR or LF: {out_body[:200]!r}")
+        lone = lambda s: (s.replace("\r\n", "").count("\r"), s.replace("\r\n", "").count("\n"))  # noqa: E731
+        if eol == "\r\n" and lone(out_body) != lone(in_body):
+            ctx.fail(case_d, f"CRLF file: lone (CR, LF) counts {lone(in_body)} before, {lone(out_body)} after: {out_body[:200]!r}")
         out_lines = physical(out_body, eol)
         # ---- declaration first
         if c["decl"] and (not out_lines or out_lines[0].rstrip("\r\n") != c["decl"]):
